@@ -71,6 +71,7 @@ type world struct {
 	tune     int  // option changes an event of the history may still make
 	retuned  bool // reconnect options were changed after Dial
 	mins     []time.Duration // every ReconnectTime value that was ever in force
+	minsSinceAttach []time.Duration // ... since the latest successful attach (the value at the attach included)
 	lostAttached bool       // the redial that is owed follows the loss of a connection that had attached
 	minEver  time.Duration // smallest ReconnectTime ever in force
 	maxEver  time.Duration // largest delay any setting ever allowed (0: some setting had no limit on growth... see below)
@@ -156,11 +157,11 @@ func (w *world) noteDials() {
 					// loss of a connection that had attached waits a reconnect time (one of the values
 					// that were in force), not a delay grown by earlier failures
 					isMin := false
-					for _, v := range w.mins {
+					for _, v := range w.minsSinceAttach {
 						isMin = isMin || v == gap
 					}
 					if !isMin {
-						kit.Failf("delay-not-reset-after-attach", "attempt %d came %v after the loss of a connection that had attached; ReconnectTime was only ever one of %v: the delay grown by earlier failures was not reset by the attach", w.ndials, gap, w.mins)
+						kit.Failf("delay-not-reset-after-attach", "attempt %d came %v after the loss of a connection that had attached; since that attach ReconnectTime was one of %v: the attach did not reset the delay to the reconnect time in force (a delay grown by earlier failures, or a reconnect time that had been replaced before the attach, was used)", w.ndials, gap, w.minsSinceAttach)
 					}
 					kit.Count("first-redial-after-an-attached-connection-waits-the-reconnect-time")
 				}
@@ -204,6 +205,7 @@ func (w *world) noteDials() {
 				w.gapset = w.curset
 			} else {
 				w.attached = p
+				w.minsSinceAttach = []time.Duration{w.c.min}
 				if len(w.curset) != 1 || w.curset[0] != w.c.min {
 					kit.Count("delay-reset-after-attach")
 				}
@@ -390,6 +392,7 @@ func histTune(depth int, viaDialer bool, tune int) {
 						}
 						if c.opt == mangos.OptionReconnectTime {
 							w.mins = append(w.mins, c.v)
+							w.minsSinceAttach = append(w.minsSinceAttach, c.v)
 							if c.v < w.minEver {
 								w.minEver = c.v
 							}
